@@ -87,6 +87,19 @@ pub fn spec_signatures(s: &TypeSpec) -> Vec<&'static str> {
             }
         }
     }
+    if s.kind == Kind::Union {
+        let raw_hash = s.raw.iter().any(|r| r.contains("Hash"));
+        let no_unsafe = s.attr(Tr::Hash).map(|a| !a.has_unsafe() || !matches!(a.params.first(), Some((TParam::Unsafe, _)))).unwrap_or(false);
+        if raw_hash || no_unsafe {
+            out.push("union_hash_without_leading_unsafe");
+        }
+    }
+    if s.has(Tr::Clone) {
+        let below = s.variants.iter().any(|v| v.raw.iter().any(|r| r.contains("Copy")) || v.fields.iter().any(|f| f.raw.iter().any(|r| r.contains("Copy"))));
+        if below {
+            out.push("copy_attribute_below_type_level_while_clone_is_educed");
+        }
+    }
     if s.has(Tr::Debug) && s.kind != Kind::Union {
         // a `?Sized` type parameter used as the last field
         if s.gens.types.iter().any(|t| t.bounds.iter().any(|b| b == "?Sized")) {
@@ -103,6 +116,8 @@ pub fn failure_matches(sig: &str, msg: &str) -> bool {
         "copy_clone_enum_with_clone_method_and_type_parameter" => msg.contains("E0204"),
         "field_types_differ_only_in_lifetime" => msg.contains("E0283") || msg.contains("E0204") || msg.contains("lifetime may not live long enough"),
         "debug_unsized_tail" => msg.contains("E0277"),
+        "union_hash_without_leading_unsafe" => msg.contains("panic"),
+        "copy_attribute_below_type_level_while_clone_is_educed" => msg.contains("accepted"),
         _ => false,
     }
 }
